@@ -41,13 +41,14 @@ m = {
         "enable": "RUSTFLAGS --cfg qvnt_verif, set in /verif/harness/.cargo/config.toml; ./check builds /verif/harness (path dependency on /repo) with it",
         "baseline_off_cmd": "cd /repo && cargo test --workspace --no-fail-fast --offline",
         "source_commits": hook_commits,
-        "add_only": True,
+        "add_only": False,
+        "note": "every hook is new code under #[cfg(qvnt_verif)] except one rewritten line: `use std::sync::{Arc, RwLock};` in src/threads.rs is split into `use std::sync::Arc;` + `#[cfg(not(qvnt_verif))] use std::sync::RwLock;` so that the lock can be replaced by the logging stand-in of verif::pool when the guard is on (an explicit import cannot be shadowed); with the guard off the module is token-for-token what it was",
     },
     "engines": [{
         "name": "lean4-proof+correspondence",
         "path": "/verif/check",
         "serves_properties": [c["property_id"] for c in checks],
-        "kind_free_text": "Lean 4 theorems about a hand-written model (lean/Qvnt/Model) and reference semantics (lean/Qvnt/Spec); model tied to /repo on every run by a differential correspondence check (harness/ + lean/Driver.lean) and by translators: tools/rs2lean.py regenerates the atomic kernels, the sweep of dispatch.rs, math::rotate and the classical-register functions from the Rust source on every run and Lemmas/GenKernels.lean, GenRegs.lean prove them equal to the model; tools/rs2lean2.py regenerates the register operations of quant.rs, SingleOp / MultiOp (apply with its buffer ping-pong, act_on, dgr, c, *=), BitsIter::next, multi::h::h and the remaining class.rs functions, and Lemmas/GenRegs2.lean proves each equal to the model; tools/extract.py regenerates the interpreter's gate table and constants",
+        "kind_free_text": "Lean 4 theorems about a hand-written model (lean/Qvnt/Model) and reference semantics (lean/Qvnt/Spec); model tied to /repo on every run by a differential correspondence check (harness/ + lean/Driver.lean) and by translators: tools/rs2lean.py regenerates the atomic kernels, the sweep of dispatch.rs, math::rotate and the classical-register functions from the Rust source on every run and Lemmas/GenKernels.lean, GenRegs.lean prove them equal to the model; tools/rs2lean2.py regenerates the register operations of quant.rs, SingleOp / MultiOp (apply with its buffer ping-pong, act_on, dgr, c, *=), BitsIter::next, multi::h::h and the remaining class.rs functions, and Lemmas/GenRegs2.lean proves each equal to the model; tools/extract.py regenerates the interpreter's gate table and constants; the thread-pool transition system (Model/Pool.lean) is tied to src/threads.rs by trace conformance: the event log of the cfg(qvnt_verif) lock / pool stand-ins is replayed through the model's step relation on every run (Pool.conforms, soundness C19_trace_sound)",
     }],
     "checks": checks,
     "notes": "See DESIGN.md. Genuine defects found are repaired by 'fix:' commits in /repo or listed in KNOWN_FINDINGS.json.",
